@@ -2,7 +2,7 @@ SPECIFICATION Spec15
 CONSTANTS
   LKeys = {"req", "HardKey", "IFVer", "SSHClientVersion", "Touch2SSH", "IsFirefighter", "TouchlessSudoHosts", "TouchlessSudoTime", "other"}
   MaxFields = 3
-  IfVers = {-1, 0, 6, 7, 9}
+  IfVers <- MCIfVersT
 INVARIANT Total RoundTripSanity
 PROPERTIES P_C15 P_Strict15
 CHECK_DEADLOCK FALSE
